@@ -721,7 +721,7 @@ func main() {
 	// 3. structured
 	rng := common.NewRNG(f.Seed)
 	rs := rng.Fork()
-	ns := 12000
+	ns := 30000
 	if f.Tier == "thorough" {
 		ns = 150000
 	}
@@ -743,7 +743,7 @@ func main() {
 	}
 	// 5. random long texts
 	rl := rng.Fork()
-	nr, maxLines := 150, 600
+	nr, maxLines := 300, 600
 	if f.Tier == "thorough" {
 		nr, maxLines = 1500, 1500
 	}
